@@ -138,6 +138,15 @@ def step (st : St) (line : String) : IO St := do
     if small "fmg_two_level_diff" 1e-9 == some false then
       IO.println s!"ORACLE C09 two-level FMG start vector is not the interpolated coarse solution ({line.trimAscii})"
       st := { st with oracleFails := st.oracleFails + 1 }
+    match kv rest "second_solve_it", kv rest "first_solve_it" with
+    | some i2, some i1 =>
+      let maxit := toNat! ((kv rest "maxit").getD ""); let it2 := toNat! i2; let it1 := toNat! i1
+      let rho2 := hexF ((kv rest "second_solve_rho").getD "")
+      -- the first solve converged within the budget; a repeated solve() on the same object must do so too (C01 for object histories)
+      if it1 < maxit ∧ (it2 ≥ maxit ∨ !(rho2 < 1.0)) then
+        IO.println s!"ORACLE C01 a repeated solve() on the same solver object does not converge within the iteration budget (first solve: {it1} iterations, second: {it2} of {maxit}, mean reduction factor {rho2}) ({line.trimAscii})"
+        st := { st with oracleFails := st.oracleFails + 1 }
+    | _, _ => pure ()
     match kv rest "fmg_used_object_differs" with
     | some d =>
       if d != "0" then
